@@ -98,7 +98,7 @@ TExpand ==
     /\ Verdict("bad-generator", WellFormed(E))
     /\ (~ExpCrashed /\ WellFormed(E)) =>
          LET G == GraphOf(E)
-             x == Expand(G, E.root) IN
+             x == IF "roots" \in DOMAIN E THEN ExpandMany(G, E.roots) ELSE Expand(G, E.root) IN
          /\ Verdict("missed-cycle" \o RootSpelling, E.ok => x.ok)
          /\ Verdict("spurious-error" \o RootSpelling, x.ok => E.ok)
          /\ Verdict("markers" \o RootSpelling, (E.ok /\ x.ok) => E.markers = Audible(E, x.out))
